@@ -241,7 +241,7 @@ INFO = {
     "functions": ["pyscsi.utils.converter.scsi_int_to_ba", "pyscsi.utils.converter.scsi_ba_to_int",
                   "pyscsi.utils.converter.encode_dict", "pyscsi.utils.converter.decode_bits"],
     "bounds": {"array sizes": "0..33 bytes (quick: 0,1,2,3,4,8,9,17)", "mask width": "1..264 bits thorough / 1..72 quick, "
-               "alignment 0..7, i.e. spans 1..18 / 1..10 bytes", "offsets": "0, 1, end-of-buffer (22-byte buffer)",
+               "low end of the run at bit 0..31 (alignment 0..7 and up to three empty low-order mask bytes), i.e. spans 1..37 / 1..13 bytes", "offsets": "0, 1, end-of-buffer (buffer of max(22, maxw/8+9) bytes)",
                "two-field law": "masks up to 40 (quick 20) bits each, 12-byte buffer, 3 offset pairs",
                "blobs": "b/w/dw, lengths 0..8 (quick 0,1,3,8)"},
     "outside": ["masks with holes or mask 0 (no table in the repo has one: checked as a side obligation)",
